@@ -203,3 +203,18 @@ func (h *H2Client) SendAborted(fields []H2Field, body []byte, rst bool) error {
 	_, err := h.Conn.Write(out.Bytes())
 	return err
 }
+
+// StartRequest writes HEADERS without END_STREAM and returns the stream id; the caller
+// continues with h.Fr.WriteData(id, ...) and h.ReadResponse(id, ...).
+func (h *H2Client) StartRequest(fields []H2Field) (uint32, error) {
+	id := h.nextID
+	h.nextID += 2
+	h.encBuf.Reset()
+	for _, f := range fields {
+		if err := h.enc.WriteField(hpack.HeaderField{Name: f.Name, Value: f.Value}); err != nil {
+			return 0, err
+		}
+	}
+	err := h.Fr.WriteHeaders(http2.HeadersFrameParam{StreamID: id, BlockFragment: h.encBuf.Bytes(), EndStream: false, EndHeaders: true})
+	return id, err
+}
